@@ -41,13 +41,16 @@ CONSTANTS
   RelTab,        \* decay table of the reliability score: RelTab[r+1] = 10000 * 2^(-r/Len(RelTab)), r = 0..Len-1
   IssTab,        \* same for the cached-issue decay (half-life Len(IssTab) ticks)
   Late,          \* how many ticks late a maintenance tick may be taken (0 or 1)
+  FILTER_ALL,    \* TRUE: every fetched path passes the policy filter; FALSE (mutant, oracle self-check): paths whose
+                 \*       fingerprint is already cached skip it
   FIX_EXPIRY,    \* TRUE: the active path's expiry is a maintenance instant
   FIX_FIFO       \* TRUE: eviction pops until a map slot is free; the FIFO is compacted at 2 x IssueCap
 
 VARIABLES
   now,        \* injected clock
   alive,      \* the worker has not exited
-  cache,      \* ranked sequence of [id, exp, rel, relAt]   (PathSetInternal::cached_paths)
+  cache,      \* ranked sequence of [id, exp, rel, relAt, ok]   (PathSetInternal::cached_paths); ok: the policies
+              \* accept the cached OBJECT (a lookup may return a known fingerprint as an object they reject)
   active,     \* NoAct or [id, exp]: the slot holds its own copy of the path  (PathSetSharedState::active_path)
   nextRefetch, nextIdle, failed, used,
   imap,       \* [Issues -> Int]: timestamp of the cached marker, -1 = absent   (PathIssueManager::cache)
@@ -55,7 +58,7 @@ VARIABLES
   chan, lag,  \* this worker's view of the broadcast channel: retained notifications, "receiver lagged"
   out,        \* outcome of the last step (what the caller / the log sees)
   \* ---- ghosts of the P-layer
-  lastOk,     \* set of [id, exp] returned by the most recent lookup that returned paths
+  lastOk,     \* set of [id, exp] of the admissible paths of the most recent lookup that returned any
   everOk,     \* union of all of them
   lastFetch,  \* NoFetch or [at, ok]: the most recent lookup attempt
   lastAcc     \* [Issues -> Int]: instant of the most recent accepted (non-duplicate) report, -1 = never
@@ -188,13 +191,15 @@ Init ==
 
 (***************************************************************************)
 (* update_path_cache(F): refresh, prune expired, (drain + candidates +     *)
-(* merge) if new paths remain.  F: set of [id, exp] that passed the        *)
-(* policy; result [c, act, ch, lg].                                        *)
+(* merge) if new paths remain.  F: set of [id, exp, ok] that passed the    *)
+(* policy filter; result [c, act, ch, lg].                                 *)
 (***************************************************************************)
 UpdateCache(F, t) ==
   LET ExpOf(id) == (CHOOSE p \in F : p.id = id).exp
+      OkOf(id)  == (CHOOSE p \in F : p.id = id).ok
       refreshed == [k \in 1..Len(cache) |->
-                      IF \E p \in F : p.id = cache[k].id THEN [cache[k] EXCEPT !.exp = ExpOf(cache[k].id)] ELSE cache[k]]
+                      IF \E p \in F : p.id = cache[k].id
+                      THEN [cache[k] EXCEPT !.exp = ExpOf(cache[k].id), !.ok = OkOf(cache[k].id)] ELSE cache[k]]
       c1 == SelectSeq(refreshed, LAMBDA e : Class(e.exp, t) # "expired")
       act1 == IF active = NoAct THEN NoAct
               ELSE IF active.id \in Ids(c1) THEN [id |-> active.id, exp |-> c1[Pos(c1, active.id)].exp]
@@ -206,23 +211,28 @@ UpdateCache(F, t) ==
      ELSE LET c2 == ApplyIssues(c1, chan, t)                 \* drain_and_apply_issue_channel
               ids == SeqOfIds(newIds)
               fresh == [k \in 1..Len(ids) |->
-                          ApplyCached([id |-> ids[k], exp |-> ExpOf(ids[k]), rel |-> 0, relAt |-> t], Issues, imap, t)]
+                          ApplyCached([id |-> ids[k], exp |-> ExpOf(ids[k]), rel |-> 0, relAt |-> t, ok |-> OkOf(ids[k])],
+                                      Issues, imap, t)]
           IN [c |-> Merge(c2, Rank(fresh, t), act1, t), act |-> act1, ch |-> <<>>, lg |-> FALSE]
 
 (***************************************************************************)
 (* Tick(f): PathSet::maintain(now) as called by the worker loop.           *)
 (* f: the lookup service's answer, used only when a lookup is due:         *)
-(*    [k |-> "ok", ps |-> set of [id, exp]], [k |-> "empty"], [k |-> "err"] *)
+(*    [k |-> "ok", ps |-> set of [id, exp, ok]], [k |-> "empty"], [k |-> "err"] *)
+(*    (ok: the attached policies accept this returned object)              *)
 (***************************************************************************)
 FetchAndUpdate(f, ni, u) ==
-  LET F  == IF f.k = "ok" THEN {p \in f.ps : p.id \in Allowed} ELSE {}
+  LET Adm(p) == p.ok /\ p.id \in Allowed                 \* PathStrategy::predicate on the returned object
+      F  == IF f.k = "ok"
+            THEN {p \in f.ps : Adm(p) \/ (~FILTER_ALL /\ p.id \in Ids(cache))} ELSE {}
       ok == F # {}
+      got == IF f.k = "ok" THEN {[id |-> p.id, exp |-> p.exp] : p \in {q \in f.ps : Adm(q)}} ELSE {}
       r  == UpdateCache(F, now)
   IN IF ok /\ r.c = <<>>
      THEN \* earliest_expiry().expect("should have a path available ...") panics: the worker dies
           /\ out' = [kind |-> "tick", fetched |-> TRUE, res |-> "panic"]
           /\ alive' = FALSE
-          /\ lastOk' = f.ps /\ everOk' = everOk \cup f.ps /\ lastFetch' = [at |-> now, ok |-> TRUE]
+          /\ lastOk' = got /\ everOk' = everOk \cup got /\ lastFetch' = [at |-> now, ok |-> TRUE]
           /\ UNCHANGED <<now, cache, active, nextRefetch, nextIdle, failed, used, imap, fifo, chan, lag, lastAcc>>
      ELSE LET c3 == Rank(r.c, now)
           IN /\ cache' = c3
@@ -233,8 +243,8 @@ FetchAndUpdate(f, ni, u) ==
                                ELSE now + MaxI(Backoff(failed + 1), MinDelay)
              /\ nextIdle' = ni /\ used' = u
              /\ out' = [kind |-> "tick", fetched |-> TRUE, res |-> IF ok THEN "ok" ELSE "failed"]
-             /\ lastOk' = IF f.k = "ok" THEN f.ps ELSE lastOk
-             /\ everOk' = IF f.k = "ok" THEN everOk \cup f.ps ELSE everOk
+             /\ lastOk' = IF got # {} THEN got ELSE lastOk
+             /\ everOk' = everOk \cup got
              /\ lastFetch' = [at |-> now, ok |-> ok]
              /\ UNCHANGED <<now, alive, imap, fifo, lastAcc>>
 
@@ -366,8 +376,8 @@ NoTickPending == alive /\ now < NextMaintain
 Quiescent     == NoTickPending /\ chan = <<>> /\ ~lag
 
 \* ---- C05
-\* the path in the slot satisfies the policy (never an unfiltered path) ...
-PolicyHonoured == active # NoAct => active.id \in Allowed
+\* the path OBJECT in the slot satisfies every attached policy (never an unfiltered path) ...
+PolicyHonoured == active # NoAct => (active.id \in Allowed /\ (active.id \in Ids(cache) => cache[Pos(cache, active.id)].ok))
 \* ... and is a path a lookup really returned, from the most recent lookup that returned paths or still unexpired
 Provenance ==
   active # NoAct =>
@@ -391,7 +401,9 @@ NoWorkerPanic == ~(out.kind = "tick" /\ out.res = "panic") /\ ~(out.kind = "repo
 \* ---- C07
 \* a path counts as penalised while a report that hit it is younger than RecoverWin
 RecoverWin == 10 * Len(RelTab)
-FreshWin   == Len(RelTab)
+\* a report is fresh while it is younger than the shortest half-life the stack applies to a penalty (a path
+\* fetched after the report carries the cached issue's penalty, which halves every Len(IssTab) ticks = 30 s)
+FreshWin   == Len(IssTab)
 HitSince(p, w) == \E i \in Issues : lastAcc[i] >= 0 /\ now - lastAcc[i] < w /\ IssueApplies[i] /\ p \in IssueHits[i]
 \* while a report on an interface of the path in use is fresh and a valid, unpenalised cached path avoids the
 \* interface, the slot does not hold a path crossing it (covers "very next send" and "no return while fresh")
